@@ -2,7 +2,7 @@
 # usage: tools/trymutant.sh <ID> <patch-file>   — apply a candidate change to a scratch worktree of /repo HEAD,
 # run the check of <ID> against it, print CAUGHT/MISSED + the VIOLATION line
 cd "$(dirname "$0")/.."
-id=$1; patch=$2
+id=$1; patch=$(realpath "$2")
 WT=/tmp/wt-try-$id-$$
 git -C /repo worktree add -q $WT HEAD || exit 2
 if ! git -C $WT apply -3 "$patch" 2>/tmp/try-apply-$$.log; then echo "PATCH DOES NOT APPLY"; cat /tmp/try-apply-$$.log | tail -3; git -C /repo worktree remove --force $WT; exit 3; fi
